@@ -26,12 +26,15 @@ CONSTANTS ChildCodes,    \* exit codes used by a child that exits first
           DeliverTrap,   \* BOOLEAN: tracer hands a genuine SIGTRAP to the tracee
           LowByteSignal, \* BOOLEAN: the namespace runner takes the whole low byte of the wait status as the
                          \* signal (FALSE = the code: WaitStatus.Signal(); TRUE shows what that would break)
+          RelabelOnCancel, \* BOOLEAN: the container host turns every result it receives after a cancel into TLE
+                         \* (FALSE = the code: the reply of init is reported as it is)
           WaitGroup      \* BOOLEAN: the container init waits for the program's process group (-pid)
                          \* instead of the program (FALSE = the code; TRUE shows what that would break)
 
 VARIABLES runner, att, child, execved, mpc, mws, kpc, kws, result, actual,
-          core           \* core dumps enabled for the program (RLIMIT_CORE > 0, writable work dir)
-vars == <<runner, att, child, execved, mpc, mws, kpc, kws, result, actual, core>>
+          core,          \* core dumps enabled for the program (RLIMIT_CORE > 0, writable work dir)
+          cancel         \* the caller cancels its context after the program has ended by itself
+vars == <<runner, att, child, execved, mpc, mws, kpc, kws, result, actual, core, cancel>>
 
 None == [k |-> "none", n |-> 0]
 NoWs == [t |-> "none", n |-> 0, raw |-> 0]
@@ -109,6 +112,8 @@ Init ==
   /\ mpc = "fork" /\ mws = NoWs /\ kpc = "absent" /\ kws = NoWs
   /\ result = NoResult /\ actual = None
   /\ core \in BOOLEAN
+  /\ cancel \in BOOLEAN
+  /\ cancel => runner \in {"cbefore", "cafter"} /\ child.k = "none" /\ ~core /\ att.kind # "badexec"
   /\ core => att.kind \in {"raise", "fault", "sys"} /\ SignalOf(att.kind, att.n) \in CoreSigs
 
 Running == result = NoResult
@@ -120,15 +125,15 @@ StartFails ==
      THEN \* Start() succeeds (the child is stopped before exec), exec fails, the child exits
           /\ mpc' = "dead" /\ mws' = Exited(1) /\ UNCHANGED result
      ELSE /\ result' = Res(StRunnerError, 0, "execve: no such file or directory")
-          /\ UNCHANGED <<mpc, mws, core>>
-  /\ UNCHANGED <<runner, att, child, execved, kpc, kws, actual, core>>
+          /\ UNCHANGED <<mpc, mws, core, cancel>>
+  /\ UNCHANGED <<runner, att, child, execved, kpc, kws, actual, core, cancel>>
 
 MainFork ==
   /\ Running /\ mpc = "fork" /\ att.kind # "badexec"
   /\ CASE child.k = "none"    -> mpc' = "act" /\ UNCHANGED kpc
        [] child.k = "outlive" -> mpc' = "act" /\ kpc' = "sleep"
        [] OTHER               -> mpc' = "waitkid" /\ kpc' = "act"
-  /\ UNCHANGED <<runner, att, child, execved, mws, kws, result, actual, core>>
+  /\ UNCHANGED <<runner, att, child, execved, mws, kws, result, actual, core, cancel>>
 
 KidAct ==
   /\ Running /\ kpc = "act"
@@ -136,12 +141,12 @@ KidAct ==
      ELSE IF runner = "ptrace" /\ child.n # SIGKILL
           THEN kpc' = "stopped" /\ kws' = Stopped(child.n)
           ELSE kpc' = "dead" /\ kws' = Signaled(child.n)
-  /\ UNCHANGED <<runner, att, child, execved, mpc, mws, result, actual, core>>
+  /\ UNCHANGED <<runner, att, child, execved, mpc, mws, result, actual, core, cancel>>
 
 KidAfter ==    \* the child's signal did not end it
   /\ Running /\ kpc = "after"
   /\ kpc' = "dead" /\ kws' = Exited(95)
-  /\ UNCHANGED <<runner, att, child, execved, mpc, mws, result, actual, core>>
+  /\ UNCHANGED <<runner, att, child, execved, mpc, mws, result, actual, core, cancel>>
 
 \* waitpid() in the main process returns once the child is dead; a traced child is handed
 \* back to its real parent only after the tracer has seen its end
@@ -153,7 +158,7 @@ MainWaitKid ==
           kpc \in {"dead", "reaped"} /\ UNCHANGED kpc
      ELSE (IF runner = "ptrace" THEN kpc = "reaped" ELSE kpc = "dead") /\ kpc' = "reaped"
   /\ mpc' = "act"
-  /\ UNCHANGED <<runner, att, child, execved, mws, kws, result, actual, core>>
+  /\ UNCHANGED <<runner, att, child, execved, mws, kws, result, actual, core, cancel>>
 
 MainAct ==
   /\ Running /\ mpc = "act"
@@ -161,16 +166,16 @@ MainAct ==
      IF att.kind = "exit"
      THEN mpc' = "dead" /\ mws' = Exited(att.n) /\ actual' = ExitEnd(att.n)
      ELSE IF ~KernelFatal(runner, att.kind, s)
-     THEN mpc' = "after" /\ UNCHANGED <<mws, actual, core>>
+     THEN mpc' = "after" /\ UNCHANGED <<mws, actual, core, cancel>>
      ELSE IF runner = "ptrace" /\ StopsFirst(att.kind, s)
      THEN mpc' = "stopped" /\ mws' = Stopped(s) /\ UNCHANGED actual
      ELSE mpc' = "dead" /\ mws' = SignaledC(s, core) /\ actual' = SigEnd(s)
-  /\ UNCHANGED <<runner, att, child, execved, kpc, kws, result, core>>
+  /\ UNCHANGED <<runner, att, child, execved, kpc, kws, result, core, cancel>>
 
 MainAfter ==
   /\ Running /\ mpc = "after"
   /\ mpc' = "dead" /\ mws' = Exited(SurvivorExit) /\ actual' = ExitEnd(SurvivorExit)
-  /\ UNCHANGED <<runner, att, child, execved, kpc, kws, result, core>>
+  /\ UNCHANGED <<runner, att, child, execved, kpc, kws, result, core, cancel>>
 
 \* one iteration of the tracer loop: wait4(-pgid) returns any pending event
 TracerMain ==
@@ -180,34 +185,37 @@ TracerMain ==
      THEN /\ result' = Res(h.status, h.exit, h.err)
           \* a main process stopped at the delivery of s is killed by the runner: s is what ended it
           /\ actual' = IF mpc = "stopped" THEN SigEnd(mws.n) ELSE actual
-          /\ UNCHANGED <<mpc, mws, core>>
+          /\ UNCHANGED <<mpc, mws, core, cancel>>
      ELSE /\ UNCHANGED result
           /\ IF h.cont = "suppress" THEN mpc' = "after" /\ mws' = NoWs /\ UNCHANGED actual
              ELSE mpc' = "dead" /\ mws' = SignaledC(mws.n, core) /\ actual' = SigEnd(mws.n)
-  /\ UNCHANGED <<runner, att, child, execved, kpc, kws, core>>
+  /\ UNCHANGED <<runner, att, child, execved, kpc, kws, core, cancel>>
 
 TracerKid ==
   /\ Running /\ runner = "ptrace" /\ kpc \in {"stopped", "dead"}
   /\ LET h == PtraceHandle(FALSE, kws, execved) IN
      IF h.finished \/ h.status # StNormal
-     THEN result' = Res(h.status, h.exit, h.err) /\ UNCHANGED <<kpc, kws, core>>
+     THEN result' = Res(h.status, h.exit, h.err) /\ UNCHANGED <<kpc, kws, core, cancel>>
      ELSE /\ UNCHANGED result
           /\ IF kpc = "dead" THEN kpc' = "reaped" /\ UNCHANGED kws
              ELSE IF h.cont = "suppress" THEN kpc' = "after" /\ kws' = NoWs
              ELSE kpc' = "dead" /\ kws' = Signaled(kws.n)
-  /\ UNCHANGED <<runner, att, child, execved, mpc, mws, actual, core>>
+  /\ UNCHANGED <<runner, att, child, execved, mpc, mws, actual, core, cancel>>
 
 Waiter ==      \* unshare: Wait4(pgid); container: waitLoop Wait4(pid) + the two conversions
   /\ Running /\ runner # "ptrace" /\ mpc = "dead"
-  /\ result' = IF runner = "unshare" THEN UnshareResult(mws) ELSE HostResult(InitReply(mws))
-  /\ UNCHANGED <<runner, att, child, execved, mpc, mws, kpc, kws, actual, core>>
+  /\ result' = IF runner = "unshare" THEN UnshareResult(mws)
+               ELSE \* waitForDone: "result" branch, or "cancelled" branch (kill, then the same reply)
+                    LET rp == InitReply(mws) IN
+                    HostResult(IF cancel /\ RelabelOnCancel /\ rp.error = "" THEN [rp EXCEPT !.status = StTLE] ELSE rp)
+  /\ UNCHANGED <<runner, att, child, execved, mpc, mws, kpc, kws, actual, core, cancel>>
 
 \* Only with WaitGroup: in the container the orphan is a child of init (pid 1) and still in the
 \* program's process group, so wait4(-pid) may return it
 WaiterGroup ==
   /\ Running /\ WaitGroup /\ runner \in {"cbefore", "cafter"} /\ Orphan /\ kpc = "dead"
   /\ result' = HostResult(InitReply(kws))
-  /\ UNCHANGED <<runner, att, child, execved, mpc, mws, kpc, kws, actual, core>>
+  /\ UNCHANGED <<runner, att, child, execved, mpc, mws, kpc, kws, actual, core, cancel>>
 
 Next == WaiterGroup \/ StartFails \/ MainFork \/ KidAct \/ KidAfter \/ MainWaitKid \/ MainAct \/ MainAfter
         \/ TracerMain \/ TracerKid \/ Waiter
